@@ -1,11 +1,20 @@
 package c10
 
 import (
+	"os"
 	"testing"
 
+	"verif/internal/bb"
 	"verif/internal/ev"
 )
 
 const prop = "C10"
 
-func TestMain(m *testing.M) { ev.Main(m) }
+// the library-level campaigns never start a server; the black-box campaign (bb_test.go) and its replays do:
+// every server of this process is killed and its directory removed after the run
+func TestMain(m *testing.M) {
+	code := m.Run()
+	ev.Flush()
+	bb.CleanupAll()
+	os.Exit(code)
+}
